@@ -4,7 +4,7 @@ from facts import (norm, call_name, short, subnodes, lit_value, matches_on, arm_
 from prov import Prov, has_field, has_call
 from templates import variant_table, enclosing_contexts, LOSSY_OR_REORDERING, inlined
 from tsrules import namespace_targets
-from c09 import all_elements, inl
+from c09 import all_elements, inl, member_type_pure
 from c14 import stable_pred, sections, require_fields
 
 PR = "nitrogql_printer::"
@@ -122,24 +122,23 @@ def underscore_with_letters(P, R, g):
     test of a letter class (`is_ascii_alphabetic`, `is_ascii_alphanumeric`, ..) on a `char` sits in a boolean expression that
     also compares the character with '_' — with the same polarity (`is_x(c) || c == '_'`, `!is_x(c) && c != '_'`).  This holds
     for any spelling of the scanner (state machine, `split` + trimming, helper functions); digit-only tests are not concerned."""
-    gi = inlined(P, g)
-    nodes = gi.nodes()
+    # the scanner and every same-crate function it calls or passes as a function value (`flat_map(identifiers_in)`)
+    from templates import scope_fns
     tests = []
-    for idx, (n, _) in enumerate(nodes):
-        if n.get("k") == "MethodCall" and n["method"] in LETTER_CLASSES and peel_ty(n.get("recv_ty") or n["recv"].get("t")) == "char":
+    for gi in scope_fns(P, g):
+        nodes = gi.nodes()
+        for idx, (n, _) in enumerate(nodes):
+            if not (n.get("k") == "MethodCall" and n["method"] in LETTER_CLASSES and peel_ty(n.get("recv_ty") or n["recv"].get("t")) == "char"):
+                continue
             # the maximal boolean expression around the test
-            top, pol, p, child = n, 0, nodes[idx][1], n
+            top, pol, p = n, 0, nodes[idx][1]
             while p >= 0:
                 x = nodes[p][0]
                 if x.get("k") == "Unary" and x.get("op") == "Not":
                     pol ^= 1
-                elif x.get("k") == "Binary" and x.get("op") in ("&&", "||", "And", "Or"):
-                    pass
-                elif x.get("k") in ("DropTemps", "Use", "Paren"):
-                    pass
-                else:
+                elif not ((x.get("k") == "Binary" and x.get("op") in ("&&", "||", "And", "Or")) or x.get("k") in ("DropTemps", "Use", "Paren")):
                     break
-                top, child, p = x, x, nodes[p][1]
+                top, p = x, nodes[p][1]
             tests.append((n, top, pol))
     bad, ok = [], 0
     for n, top, pol in tests:
@@ -419,6 +418,8 @@ def r10d(P, R):
         a = inl(P, P.fn(PR + "resolver_type_printer::visitor::arguments_definition_to_ts"))
         namespace_targets(P, R, "R10-d", a, "ResolverInput", 1)
         all_elements(P, R, "R10-d", a, A + "type_system::ArgumentsDefinition", "input_values", "arguments")
+        # Args = the declared argument types: no argument's type depends on its default value or directives
+        member_type_pure(P, R, "R10-d", P.fn(PR + "resolver_type_printer::visitor::arguments_definition_to_ts"), A + "type_system::InputValueDefinition", "arguments")
         ro = inl(P, P.fn(PR + "resolver_type_printer::visitor::get_ts_type_for_resolver_output"))
         namespace_targets(P, R, "R10-d", ro, "ResolverOutput", 1)
 
